@@ -1,4 +1,5 @@
 import StunVerif.Props.C01
+import StunVerif.Props.SrcFnParse
 #print axioms StunVerif.C01.msg_type_total
 #print axioms StunVerif.C01.header_total
 #print axioms StunVerif.C01.raw_total
@@ -10,3 +11,14 @@ import StunVerif.Props.C01
 #print axioms StunVerif.C01.display_total
 #print axioms StunVerif.C01.validate_total
 #print axioms StunVerif.C01.police_total
+#print axioms StunVerif.SrcFnParse.ArrInv.init
+#print axioms StunVerif.SrcFnParse.len_le_three
+#print axioms StunVerif.SrcFnParse.ending_ne_zero
+#print axioms StunVerif.SrcFnParse.ArrInv.contains_eq
+#print axioms StunVerif.SrcFnParse.ArrInv.push
+#print axioms StunVerif.SrcFnParse.setLen_mod
+#print axioms StunVerif.SrcFnParse.endingTypes_eq
+#print axioms StunVerif.SrcFnParse.fp_mem
+#print axioms StunVerif.SrcFnParse.walk_agree
+#print axioms StunVerif.SrcFnParse.src_msgFromBytes
+#print axioms StunVerif.SrcFnParse.src_accepts_iff
